@@ -4,6 +4,7 @@ import (
 	"fmt"
 	"math"
 	"regexp"
+	"strconv"
 	Time "time"
 )
 
@@ -263,13 +264,31 @@ var (
 		Time.RFC1123,
 	}
 	matchDateTimeZone = regexp.MustCompile(`^(.*)(?:(Z)|([\+\-]\d{2}):(\d{2}))$`)
+	// matchDateExpandedYear matches the expanded year form of 15.9.1.15.1: a sign and six digits.
+	matchDateExpandedYear = regexp.MustCompile(`^([\+\-]\d{6})(.*)$`)
 )
+
+// msPer400Years is the length of one full cycle of the Gregorian calendar (146097 days).
+const msPer400Years = 146097 * 24 * 60 * 60 * 1000
 
 // dateParse returns the epoch of the parsed date.
 func dateParse(date string) float64 {
 	// YYYY-MM-DDTHH:mm:ss.sssZ
 	var time Time.Time
 	var err error
+
+	// The layouts below read four-digit years only: an expanded year is parsed through the year of
+	// 2000-2399 with the same place in the 400 year cycle, and the whole cycles are added back.
+	var cycles int64
+	if match := matchDateExpandedYear.FindStringSubmatch(date); match != nil {
+		if match[1] == "-000000" {
+			return math.NaN() // 15.9.1.15.1: year 0 is written +000000
+		}
+		year, _ := strconv.ParseInt(match[1], 10, 64)
+		standIn := 2000 + ((year%400)+400)%400
+		cycles = (year - standIn) / 400
+		date = strconv.FormatInt(standIn, 10) + match[2]
+	}
 
 	if match := matchDateTimeZone.FindStringSubmatch(date); match != nil {
 		if match[2] == "Z" {
@@ -290,5 +309,5 @@ func dateParse(date string) float64 {
 		return math.NaN()
 	}
 
-	return float64(time.UnixMilli())
+	return float64(time.UnixMilli() + cycles*msPer400Years)
 }
